@@ -381,6 +381,7 @@ func runBehaviour(in *vio.Input, bi int, b vio.Behaviour, svcs []svc, res *vio.R
 	}
 	// which listeners are still bound
 	time.Sleep(20 * time.Millisecond)
+	boundAfter := make([]int, len(svcs))
 	for i, s := range svcs {
 		stillOpen := 0
 		for li, p := range lo.ports[i] {
@@ -391,6 +392,7 @@ func runBehaviour(in *vio.Input, bi int, b vio.Behaviour, svcs []svc, res *vio.R
 				stillOpen++
 			}
 		}
+		boundAfter[i] = stillOpen
 		if len(final.Open) > i && stillOpen != final.Open[i] {
 			f := vio.Finding{Key: fmt.Sprintf("system.manager/%s-listener-left-bound", s.Kind), Behaviour: bi,
 				Text:     fmt.Sprintf("after Run returned (ok=%v) service %d (%s %s) holds %d bound listeners, the model says %d", gotOK, i+1, s.Kind, s.Server, stillOpen, final.Open[i]),
@@ -431,6 +433,27 @@ func runBehaviour(in *vio.Input, bi int, b vio.Behaviour, svcs []svc, res *vio.R
 			}
 		}
 	}
+	// the recorded run, for TLC (TraceManager.tla): what was logged, Run's result, which ports are still bound
+	var tr strings.Builder
+	line := func(v any) {
+		j, _ := json.Marshal(v)
+		tr.Write(j)
+		tr.WriteByte('\n')
+	}
+	line(map[string]any{"e": "run", "blocked": io.Blocked})
+	for _, ev := range got {
+		switch ev.N {
+		case "OpenListener":
+			line(map[string]any{"e": "open", "s": ev.S, "l": ev.L})
+		case "StartFail":
+			line(map[string]any{"e": "fail", "s": ev.S})
+		case "StopSvc":
+			line(map[string]any{"e": "stop", "s": ev.S})
+		}
+	}
+	line(map[string]any{"e": "ret", "ok": gotOK})
+	line(map[string]any{"e": "bound", "open": boundAfter})
+	res.Traces = append(res.Traces, tr.String())
 	res.Seen(fmt.Sprintf("%v/%s/%v", io.Blocked, batchMode, gotOK))
 	res.AddSteps(1, len(b.Steps))
 	res.Sample(map[string]any{"blocked": io.Blocked, "events": got, "ok": gotOK, "open_after": final.Open}, 3)
